@@ -210,6 +210,29 @@ func genFile(r *rng.R, i int) (*ach.File, string) {
 	return gen.File(r, o), "mixed"
 }
 
+// recreate re-tabulates every batch and the file and reports whether the result validates.
+func recreate(f *ach.File) (ok bool) {
+	defer func() {
+		if recover() != nil {
+			ok = false
+		}
+	}()
+	for _, b := range f.Batches {
+		if err := b.Create(); err != nil {
+			return false
+		}
+	}
+	for i := range f.IATBatches {
+		if err := f.IATBatches[i].Create(); err != nil {
+			return false
+		}
+	}
+	if err := f.Create(); err != nil {
+		return false
+	}
+	return f.Validate() == nil
+}
+
 func mutateText(r *rng.R, s string) string {
 	rs := []rune(s)
 	if len(rs) == 0 {
@@ -289,6 +312,24 @@ func oracle(args []string) {
 	for i, f := range apiFiles(r, *n/2) {
 		check(f, true, map[string]any{"source": "api", "index": i})
 		sum.Dist["api-built"]++
+	}
+	// unusual addenda shapes: an addenda record of another type attached to one entry of a generated
+	// file (second NOC record, return addenda of another family, IAT Addenda99/98/18), re-tabulated with
+	// Create; kept when the library still accepts the file
+	ro := rng.FromEnv(2102)
+	for i := 0; i < *n; i++ {
+		f, sec := genFile(ro, i)
+		if f == nil {
+			continue
+		}
+		g := gen.Clone(f)
+		desc, ok := gen.OddAddenda(ro, g)
+		if !ok || !recreate(g) {
+			sum.Dist["odd-addenda-refused"]++
+			continue
+		}
+		sum.Dist["odd-addenda-accepted"]++
+		check(g, true, map[string]any{"source": "gen+odd-addenda", "sec": sec, "index": i, "change": desc})
 	}
 	achFiles, _ := gen.Fixtures(*repo)
 	for _, p := range achFiles {
